@@ -196,7 +196,8 @@ def run(ctx: Ctx):
     interpreter_modes(ctx, "diagrams")
     run_witnesses(ctx)
     quick = ctx.quick()
-    for name, pool in (("diagram rules: plain names", gen.PLAIN), ("diagram rules: prefix-sibling names", ["a", "ab", "a_b", "aa", "b", "ba", "a1", "abc"])):
+    for name, pool in (("diagram rules: plain names", gen.PLAIN), ("diagram rules: prefix-sibling names", ["a", "ab", "a_b", "aa", "b", "ba", "a1", "abc"]),
+                       ("diagram rules: component names starting like the base module", ["pa", "pb", "p_c", "pp", "p1", "pab", "platform_x", "codex"])):
         s = Stream(ctx, name)
         rng = ctx.rng(name)
         cases = [make_case(rng, pool) for _ in range(ctx.size(8000, 200000))]
